@@ -35,10 +35,18 @@ type c11Runner struct {
 	watch    [2]int
 	watchVal [2]uint16
 	midBad   [2]string
+	// bank switching from inside a callback: at access number swapAt (>0) of the Step the callback re-points
+	// CPU.Memory to alt[i]
+	alt    [2]*obs.Mem
+	swapAt int
+	nAcc   [2]int
 }
 
 func newC11Runner(bg *[65536]uint8) *c11Runner {
 	r := &c11Runner{}
+	bg2 := obs.NewBackground(0x5EED0002)
+	r.alt[0], r.alt[1] = obs.NewMem(bg2), obs.NewMem(bg2)
+	r.alt[0].Limit, r.alt[1].Limit = 4096, 4096
 	for i := 0; i < 2; i++ {
 		r.mem[i] = obs.NewMem(bg)
 		r.mem[i].Limit = 4096
@@ -58,7 +66,15 @@ func newC11Runner(bg *[65536]uint8) *c11Runner {
 				}
 			}
 		}
-		r.mem[i].Hook = func(bool, uint16) { look() }
+		r.mem[i].Hook = func(bool, uint16) {
+			look()
+			if r.swapAt > 0 {
+				if r.nAcc[i] == r.swapAt {
+					r.cpu[i].Memory = r.alt[i]
+				}
+				r.nAcc[i]++
+			}
+		}
 		r.io[i].Hook = func(bool, uint8) { look() }
 	}
 	return r
@@ -160,6 +176,63 @@ func (r *c11Runner) one(cs *Case) []string {
 		r.diff = d
 		return d
 	}
+	nAccA := len(r.mem[0].Reads) + len(r.mem[0].Writes)
+	// E: the next Step on both CPUs with an NMI pending: whatever the first Step left behind besides the
+	// exported state (a "do not accept an interrupt yet" mark after a prefix, say) must be the same in both forms
+	{
+		r.cpu[0].Interrupt, r.cpu[1].Interrupt = z80.NMIInterrupt(), z80.NMIInterrupt()
+		r.mem[0].ClearLog()
+		r.mem[1].ClearLog()
+		p0, p1 := c02Step(&r.cpu[0]), c02Step(&r.cpu[1])
+		s0, s1 := fromCPU(&r.cpu[0]), mirrorState(fromCPU(&r.cpu[1]))
+		if fmt.Sprint(p0) != fmt.Sprint(p1) {
+			d = append(d, fmt.Sprintf("the Step after it, with an NMI pending: panic differs: DD %v, FD %v", p0, p1))
+		} else if p0 == nil {
+			if s0 != s1 || (r.cpu[0].Interrupt == nil) != (r.cpu[1].Interrupt == nil) {
+				d = append(d, fmt.Sprintf("the Step after it, with an NMI pending, differs between the forms (request consumed: DD %v, FD %v): after DD %v ; after FD (unmirrored) %v", r.cpu[0].Interrupt == nil, r.cpu[1].Interrupt == nil, stateMap(&s0), stateMap(&s1)))
+			} else if !sameLogs(r.mem[0], r.mem[1]) {
+				d = append(d, "the Step after it, with an NMI pending, makes different memory accesses in the two forms")
+			}
+		}
+		r.cpu[0].Interrupt, r.cpu[1].Interrupt = nil, nil
+		if len(d) > 0 {
+			r.diff = d
+			return d
+		}
+	}
+	// F: an embedder that switches banks by re-pointing CPU.Memory from inside the callback at access k of the
+	// Step. Which object serves the rest of the instruction is the implementation's business - but it must be
+	// the same business in both forms.
+	if r.alt[0] != nil && nAccA > len(cs.Bytes) {
+		// (only forms that access data; every access index after the first fetch)
+		for k := 1; k < nAccA && len(d) == 0; k++ {
+			r.swapAt = k
+			r.alt[0].Reset()
+			r.alt[1].Reset()
+			r.nAcc[0], r.nAcc[1] = 0, 0
+			qa, panA := r.run(0, cs, 0xDD, &cs.S)
+			qb, panB := r.run(1, cs, 0xFD, &ms)
+			r.swapAt = 0
+			r.cpu[0].Memory, r.cpu[1].Memory = r.mem[0], r.mem[1]
+			if fmt.Sprint(panA) != fmt.Sprint(panB) {
+				d = append(d, fmt.Sprintf("bank switch at access %d: panic differs: DD %v, FD %v", k, panA, panB))
+			} else if panA == nil {
+				if um := mirrorState(qb); um != qa {
+					d = append(d, fmt.Sprintf("bank switch (CPU.Memory re-pointed by the callback) at access %d of the Step: DD post %v ; FD post (unmirrored) %v", k, stateMap(&qa), stateMap(&um)))
+				} else if !sameLogsButPrefix(r.mem[0], r.mem[1]) || !sameLogs(r.alt[0], r.alt[1]) {
+					d = append(d, fmt.Sprintf("bank switch (CPU.Memory re-pointed by the callback) at access %d of the Step: the two forms touch the banks differently: DD old bank reads %s writes %s, new bank reads %s writes %s ; FD old bank reads %s writes %s, new bank reads %s writes %s", k,
+						fmtAcc(r.mem[0].Reads), fmtAcc(r.mem[0].Writes), fmtAcc(r.alt[0].Reads), fmtAcc(r.alt[0].Writes), fmtAcc(r.mem[1].Reads), fmtAcc(r.mem[1].Writes), fmtAcc(r.alt[1].Reads), fmtAcc(r.alt[1].Writes)))
+				}
+			}
+		}
+		if len(d) > 0 {
+			r.diff = d
+			return d
+		}
+	}
+	// re-establish arm A's and B's logs for the arms below
+	pa, _ = r.run(0, cs, 0xDD, &cs.S)
+	pb, _ = r.run(1, cs, 0xFD, &ms)
 	// C: DD form with the other index register (IY) flipped: identical outcome, IY untouched
 	fs := cs.S
 	fs.IY ^= 0xA5C3
@@ -222,7 +295,7 @@ func checkC11(c *Ctx) {
 		fs = append(fs, 0x44, 0x81, 0xC5, 0x3A)
 	}
 	lat := newLattice(c.Salt, false)
-	c.Rule = fmt.Sprintf("all 255 second bytes after DD/FD and all 256 fourth bytes after DDCB/FDCB (implemented or not) x lattice (as C01 quick, IX and IY independent and distinct; all 256 d for forms with a displacement) x %d F values; per case 4 real Steps: DD(s), FD(mirror s), DD(s with IY flipped), FD(mirror s with IX flipped); no reference model; during every device callback the other index register holds its value. Concrete-type pass: both forms of every byte on DumbMemory (len 65536, 65536+256, 32768) and MapMemory handed over unwrapped vs behind an opaque wrapper (same post-state and contents), which carries the symmetry over to the package's own device types. Non-trivial = the DD Step changed state beyond PC/R or made a data access (counted).", len(fs))
+	c.Rule = fmt.Sprintf("all 255 second bytes after DD/FD and all 256 fourth bytes after DDCB/FDCB (implemented or not) x lattice (as C01 quick, IX and IY independent and distinct; all 256 d for forms with a displacement) x %d F values; per case 4 real Steps: DD(s), FD(mirror s), DD(s with IY flipped), FD(mirror s with IX flipped); no reference model; during every device callback the other index register holds its value; the next Step with an NMI pending is the same in both forms; with the callback re-pointing CPU.Memory to another bank at every access after the first fetch of the Step (forms with a data access) both forms touch the two banks identically. Concrete-type pass: both forms of every byte on DumbMemory (len 65536, 65536+256, 32768) and MapMemory handed over unwrapped vs behind an opaque wrapper (same post-state and contents), which carries the symmetry over to the package's own device types. Non-trivial = the DD Step changed state beyond PC/R or made a data access (counted).", len(fs))
 	c.Bound = fmt.Sprintf("lattice v1 quick x %d F", len(fs))
 	bg := obsBackground(c)
 	runners := make([]*c11Runner, 16)
